@@ -142,6 +142,20 @@ def run(rep, tier, root=None):
         for force, label in ((None, "numba kernel"), ({"numba": False}, "python fallback")):
             m, I, o, paths = run_method(ix, cls, "calc_seperations", force=force)
             rep.functions_analysed.add(m.fq)
+            # the separations are square roots: the array that receives them must be floating whatever the dtype of the
+            # coordinates (integer pixel scales give integer position arrays)
+            for c_ in I.call_log:
+                if c_[0] == m.fq and c_[1].split(".")[-1] in ("zeros", "empty", "ones", "full", "zeros_like", "empty_like"):
+                    dt = c_[3].get("dtype") if isinstance(c_[3], dict) else None
+                    if dt is None and c_[1].split(".")[-1] not in ("zeros_like", "empty_like"):
+                        rep.ok("K9.allocation-dtype", "%s.calc_seperations[%s]: separation matrix is float64 by default" % (tag, label))
+                    else:
+                        from .c14 import _is_float_dtype
+                        rep.check(dt is not None and _is_float_dtype(dt), "K9.allocation-dtype",
+                                  "%s.calc_seperations[%s]: separation matrix has a floating dtype" % (tag, label),
+                                  "the separation matrix is allocated with dtype %s: with integer coordinates (integer pixel_scale) the "
+                                  "distances sqrt(2), sqrt(5), ... are truncated and the covariances are evaluated at wrong separations"
+                                  % (nf(dt, 60) if isinstance(dt, Rat) else dt,), m.where())
             st = [s for s in I.store_log if s[1] in ("seperations", "self.seperations") and s[5] == "="]
             want_pos = Rat.atom(Fn("concat", ((A("stencil_positions"), A("X_positions")), 0)))
             if len(st) != 1 or not isinstance(st[0][2], tuple) or len(st[0][2]) != 2:
